@@ -22,6 +22,7 @@ NOT proven: the two commutation hypotheses and the product rule hold only in the
 -/
 import AurelVerif.Props.C06b
 import AurelVerif.Lemmas.C06DtGamma
+import AurelVerif.Lemmas.C05Covd
 
 set_option linter.unusedSimpArgs false
 set_option linter.unusedVariables false
@@ -214,11 +215,44 @@ theorem Aup3_traceless (e : Env K) (h3 : (3 : K) ≠ 0) (hsymG : Sym e.gammadown
     + e.Kdown3 1 1 * c11 + e.Kdown3 1 2 * c12 + e.Kdown3 2 0 * c20 + e.Kdown3 2 1 * c21 + e.Kdown3 2 2 * c22
     - hT - ((1 / 3) * e.Ktrace) * h3tr - e.Ktrace * h33
 
+/-- **`Γ̃^j_jm = 0`** (the hypothesis `hΓ0` of Γ3) for the code's own connection and inverse metric, from
+`∂_sφ = ∂_s(det γ)/(12 det γ)` (φ = (1/12) ln det γ, the same hypothesis as in `dtphi_bssnok_is_dt_logdet`):
+`Γ^j_jm = ½γ^jk∂_mγ_jk = 6∂_mφ` by Jacobi's formula, and [A] (2.8.14) subtracts exactly `6∂_mφ`. -/
+theorem s_Gamma_udd3_bssnok_trace_zero (e : Env K) (h12 : (12 : K) ≠ 0) (hsymG : Sym e.gammadown3)
+    (hdet : gammadet e ≠ 0) (hU : e.gammaup3 = gammaup3 e) (hΓ : e.s_Gamma_udd3 = s_Gamma_udd3 e)
+    (hΓt : e.s_Gamma_udd3_bssnok = s_Gamma_udd3_bssnok e)
+    (hGU : ∀ i k : Fin 3, ∑ j, e.gammadown3 i j * e.gammaup3 j k = delta i k)
+    (hdφ : ∀ s : Fin 3, e.D s e.phi_bssnok
+        = C06Deriv.ddet3 e.gammadown3 (fun a b => e.D s (e.gammadown3 a b)) / (12 * gammadet e))
+    (m : Fin 3) : ∑ j, e.s_Gamma_udd3_bssnok j j m = 0 := by
+  have h01 := hsymG 1 0; have h02 := hsymG 2 0; have h12' := hsymG 2 1
+  have h1 : gammadet e = C06Deriv.det3 e.gammadown3 := by
+    simp only [C06Deriv.det3, core_unfold, h01, h02, h12']; ring
+  have hd := hdet
+  simp only [core_unfold, h01, h02, h12'] at hd
+  have hUc : ∀ a b, e.gammaup3 a b * C06Deriv.det3 e.gammadown3 = C06Deriv.cof3 e.gammadown3 a b := by
+    rw [hU]
+    cases3 <;> cases3 <;>
+      (simp only [C06Deriv.cof3, C06Deriv.det3, core_unfold, h01, h02, h12']
+       rw [div_mul_eq_mul_div, div_eq_iff hd]
+       ring)
+  have hsymU : Sym e.gammaup3 := by rw [hU, gammaup3_is_inverse]; exact inverse3_symm e e.gammadown3 hsymG
+  rw [h1] at hdφ hdet
+  have htr : ∀ m, ∑ j, e.s_Gamma_udd3 j j m = 6 * e.D m e.phi_bssnok := by
+    intro m
+    have hc : ∀ j, e.s_Gamma_udd3 j j m = christoffel2 e.D e.gammaup3 e.gammadown3 j j m := by
+      intro j; rw [hΓ]; exact C05L.s_Gamma_udd3_spec e hsymG j j m
+    simp only [hc]
+    rw [C06Deriv.christoffel_trace e.D e.gammaup3 e.gammadown3 hsymU m]
+    exact C06Deriv.half_trace_logdet e.gammadown3 e.gammaup3 (fun a b => e.D m (e.gammadown3 a b)) _ hdet h12 hUc (hdφ m)
+  exact C06Deriv.Gammat_trace_zero e.s_Gamma_udd3 e.s_Gamma_udd3_bssnok e.gammadown3 e.gammaup3 (grad e e.phi_bssnok)
+    hsymG hGU (fun k i j => by rw [hΓt]; exact s_Gamma_udd3_bssnok_rel e k i j) htr m
+
 /-- **Γ3  [A] (2.8.24)**: the divergence the code takes for `Momentumup3` in conformal variables,
 `D_j(K^ij − γ^ijK) = ψ⁻⁴ (∂_jÃ^ij + Γ̃^i_jkÃ^jk + 6Ã^ij∂_jφ − (2/3)γ̃^ij∂_jK)`.
 Hypotheses: product rule for `e.D`, `∂p = −4p∂φ` (p = ψ⁻⁴, q = ψ⁴), `D_cγ^ab = 0` (C05.metric_compat_uu), the code's own
 `s_Gamma_udd3_bssnok`, `Aup3`, `Adown3`, `Kup3`, `Ktrace`, conformal weights, two-sided inverse, symmetric `γ_ij`, `γ^ij`, `Ã^ij`,
-and `Γ̃^j_jm = 0` (unit determinant of `γ̃_ij`; NOT derived here). -/
+and `Γ̃^j_jm = 0` (unit determinant of `γ̃_ij`; derived in `s_Gamma_udd3_bssnok_trace_zero`). -/
 theorem momentum_conformal (e : Env K) (hD : ∀ s, C06Deriv.Deriv (e.D s)) (p q : K) (h3 : (3 : K) ≠ 0)
     (hsymG : Sym e.gammadown3) (hsymU : Sym e.gammaup3) (hsymA : Sym e.Aup3_bssnok)
     (hUG : ∀ i k : Fin 3, ∑ j, e.gammaup3 i j * e.gammadown3 j k = delta i k)
@@ -313,9 +347,12 @@ example :
     ∧ exStatic.s_Gamma_udd3_bssnok = s_Gamma_udd3_bssnok exStatic
     ∧ (∀ m, ∑ j, exStatic.s_Gamma_udd3_bssnok j j m = 0)
     ∧ exStatic.expF (4 * exStatic.phi_bssnok) = 1
-    ∧ (∀ i, Momentumup3__dflt_matter exStatic i = 0) := by
+    ∧ (∀ i, Momentumup3__dflt_matter exStatic i = 0)
+    ∧ gammadet exStatic ≠ 0 ∧ exStatic.gammaup3 = gammaup3 exStatic ∧ exStatic.s_Gamma_udd3 = s_Gamma_udd3 exStatic
+    ∧ (∀ s : Fin 3, exStatic.D s exStatic.phi_bssnok
+        = C06Deriv.ddet3 exStatic.gammadown3 (fun a b => exStatic.D s (exStatic.gammadown3 a b)) / (12 * gammadet exStatic)) := by
   intro Dt
-  refine ⟨fun _ _ => rfl, fun _ _ _ => rfl, ?_, ?_, ?_, ?_, ?_, ?_, ?_, ?_, ?_, ?_, ?_, ?_⟩
+  refine ⟨fun _ _ => rfl, fun _ _ _ => rfl, ?_, ?_, ?_, ?_, ?_, ?_, ?_, ?_, ?_, ?_, ?_, ?_, ?_, ?_, ?_, ?_⟩
   · funext i; revert i; cases3 <;> (simp only [exStatic, Env.zero, core_unfold]; norm_num)
   · funext a b; revert a b; cases3 <;> cases3 <;> (simp only [exStatic, Env.zero, core_unfold]; norm_num)
   · cases3 <;> cases3 <;> (simp only [exStatic, Env.zero, core_unfold]; norm_num)
@@ -331,5 +368,11 @@ example :
   · cases3 <;> (simp only [exStatic, Env.zero, Fin.sum_univ_three, core_unfold]; norm_num)
   · simp only [exStatic]
   · cases3 <;> (simp only [exStatic, Env.zero, Fin.sum_univ_three, core_unfold]; norm_num)
+  · simp only [exStatic, core_unfold]; norm_num
+  · funext a b; revert a b; cases3 <;> cases3 <;> (simp only [exStatic, core_unfold]; norm_num)
+  · funext k i j; revert k i j
+    cases3 <;> cases3 <;> cases3 <;> (simp only [exStatic, Env.zero, core_unfold]; norm_num)
+  · intro s
+    simp only [C06Deriv.ddet3, exStatic_D, mul_zero, Finset.sum_const_zero, zero_div]
 
 end AurelVerif.C06
